@@ -53,6 +53,18 @@ fn unit(r: Result<(), SignError>) -> SignOut {
 }
 
 fn err(e: SignError) -> SignOut {
+    // the standard error chain must lead to the same place as the variant's field: the bus's error for `Bus`, nothing for
+    // a protocol error
+    let via_trait = std::error::Error::source(&e).map(|s| s.to_string());
+    match &e {
+        SignError::Bus { source } if via_trait.as_deref() != Some(&source.to_string()) => {
+            return SignOut::Bus(format!("Error::source() gives {:?}, the bus failed with \"{}\"", via_trait, source));
+        }
+        SignError::UnexpectedResponse { .. } if via_trait.is_some() => {
+            return SignOut::Bus(format!("a protocol error whose Error::source() is {:?}", via_trait));
+        }
+        _ => {}
+    }
     match e {
         SignError::Bus { source } => SignOut::Bus(crate::doubles::describe_bus_error(source.as_ref())),
         SignError::UnexpectedResponse { expected, actual } => SignOut::Protocol { expected, actual },
